@@ -594,7 +594,14 @@ def compare_solve(ctx, case, out, mline):
         elif out["reason"] == "fault" and out.get("iter") is not None and int(parts[2]) != out["iter"]:
             what = f"fault reported at iteration {out['iter']} ({out['msg'][:60]}), model at {parts[2]}"
         elif not close_vec(out["pos"], fvec(parts[3]), rtol=1e-6, atol=1e-8):
-            what = f"position at failure differs: impl {out['pos'].tolist()} model {fvec(parts[3]).tolist()}"
+            scale0 = 1.0 + float(np.max(np.abs(np.asarray(case["spec"]["q0"], dtype=float))))
+            if float(np.max(np.abs(out["pos"]))) > 1e6 * scale0 or not np.all(np.isfinite(out["pos"])):
+                # a diverging iteration amplifies rounding errors without bound: the iterate at which the solver
+                # gave up (1e6 times the size of the start) is not comparable digit by digit with exact arithmetic;
+                # that both gave up with the same reason at the same iteration has been compared above
+                ctx.count("diverged_iterate_not_compared")
+            else:
+                what = f"position at failure differs: impl {out['pos'].tolist()} model {fvec(parts[3]).tolist()}"
     if what:
         ctx.disagreement(f"{SOLVERS[sk]}: {what}", {"solve_case": case})
 
